@@ -867,7 +867,27 @@ func (m *Model) RunScope(s *Sink, rule string) {
 						recv = cv // a scope variable captured by closures and never reassigned
 					}
 				}
-				if nc, ok := recv.(*ssa.Call); ok && nc.Call.StaticCallee() == newEnclosed {
+				fresh := func(v ssa.Value) bool {
+					if ld, isLd := v.(*ssa.UnOp); isLd {
+						if cv, ok := cellValue(ld); ok {
+							v = cv
+						}
+					}
+					nc, ok := v.(*ssa.Call)
+					return ok && nc.Call.StaticCallee() == newEnclosed
+				}
+				okRecv := fresh(recv)
+				if par, isPar := recv.(*ssa.Parameter); isPar && !okRecv {
+					// a helper that binds the pass: the scope its callers hand in
+					rs := m.resolveUp(par, nil, 0)
+					okRecv = len(rs) > 0
+					for _, r := range rs {
+						if _, still := r.(*ssa.Parameter); still || !fresh(r) {
+							okRecv = false
+						}
+					}
+				}
+				if okRecv {
 					s.OK(rule, key, m.InstrPos(e.Site), "SetLoopVar on NewEnclosedEnv(env): the outer loop object is visible again afterwards")
 				} else {
 					s.Violation(rule, key, m.InstrPos(e.Site), "SetLoopVar is called on %s, not on a scope created for this loop: the enclosing loop's loop object is overwritten", valueDesc(recv))
@@ -886,7 +906,7 @@ func (m *Model) RunScope(s *Sink, rule string) {
 				evalFns = append(evalFns, fn)
 			}
 		}
-		ci := m.newPassInfo(func(c ssa.CallInstruction) bool { return c.Common().StaticCallee() == slv }, func(*ssa.Call) bool { return false }, evalFns, []*ssa.Function{m.Method("evaluator", "Evaluator", "Eval")}) // not through the recursive dispatch: a nested @each is another loop
+		ci := m.newPassInfo(func(c ssa.CallInstruction) bool { return c.Common().StaticCallee() == slv }, func(*ssa.Call) bool { return false }, evalFns, []*ssa.Function{m.Method("evaluator", "Evaluator", "Eval")}, "erraware") // not through the recursive dispatch: a nested @each is another loop
 		// the functions that bind a loop object themselves or through helpers — not through the recursive dispatch (a
 		// nested @each is another loop)
 		var binds func(f *ssa.Function, seen map[*ssa.Function]bool) bool
